@@ -30,3 +30,45 @@ Proof.
   destruct (negb (String.eqb vfrom "") && (compare_version prod sver spatch vfrom <? 0))%Z; [reflexivity|].
   destruct (negb (String.eqb vtill "") && (0 <? compare_version prod sver spatch vtill))%Z; reflexivity.
 Qed.
+
+(* Python's `<` / `>` on str as the translator writes it (src_str_ltb) is the model's code-point comparison *)
+Lemma zcode_ltb (x y : Ascii.ascii) : (zcode x <? zcode y)%Z = (Ascii.N_of_ascii x <? Ascii.N_of_ascii y)%N.
+Proof. unfold zcode. destruct (N.ltb_spec (Ascii.N_of_ascii x) (Ascii.N_of_ascii y)); lia. Qed.
+Lemma str_ltb_cmp : forall a b, src_str_ltb a b = (str_cmp a b =? -1)%Z.
+Proof.
+  unfold str_cmp, codes. induction a as [|x a IH]; intros [|y b]; cbn [src_str_ltb chars map lex_cmp]; try reflexivity.
+  rewrite !zcode_ltb, IH.
+  destruct (Ascii.N_of_ascii x <? Ascii.N_of_ascii y)%N; [reflexivity|].
+  destruct (Ascii.N_of_ascii y <? Ascii.N_of_ascii x)%N; reflexivity.
+Qed.
+Lemma str_gtb_cmp : forall a b, src_str_ltb b a = (str_cmp a b =? 1)%Z.
+Proof.
+  unfold str_cmp, codes. induction a as [|x a IH]; intros [|y b]; cbn [src_str_ltb chars map lex_cmp]; try reflexivity.
+  rewrite !zcode_ltb, IH.
+  destruct (N.ltb_spec (Ascii.N_of_ascii x) (Ascii.N_of_ascii y)) as [H|H];
+  destruct (N.ltb_spec (Ascii.N_of_ascii y) (Ascii.N_of_ascii x)) as [H'|H']; try reflexivity; lia.
+Qed.
+Lemma lex_cmp_range3 : forall a b, lex_cmp a b = (-1)%Z \/ lex_cmp a b = 0%Z \/ lex_cmp a b = 1%Z.
+Proof.
+  induction a as [|x a IH]; intros [|y b]; cbn [lex_cmp]; auto.
+  destruct (x <? y)%Z; auto. destruct (y <? x)%Z; auto.
+Qed.
+Lemma src_three_way : forall s o, (if src_str_ltb s o then (-1)%Z else if src_str_ltb o s then 1%Z else 0%Z) = str_cmp s o.
+Proof.
+  intros s o. rewrite str_ltb_cmp, str_gtb_cmp.
+  destruct (lex_cmp_range3 (codes s) (codes o)) as [H|[H|H]]; unfold str_cmp; rewrite H; reflexivity.
+Qed.
+
+(* the patch-level comparison of Software.compare_version as it reads now (T1c translation of the block after the version comparison),
+   given the model's reading of its four regular-expression matches *)
+Lemma tie_patch_cmp : forall prod spatch opatch,
+  patch_cmp prod spatch opatch = src_patch_cmp prod spatch opatch (is_test opatch) (is_test spatch) (p_digit opatch) (p_digit spatch).
+Proof.
+  intros prod spatch opatch. unfold patch_cmp, src_patch_cmp, str_eqb.
+  destruct tie_products as [HO [HD _]]. rewrite <- HO, <- HD. cbv zeta.
+  destruct (String.eqb prod P_Dropbear).
+  - rewrite src_three_way. destruct (is_test opatch), (is_test spatch); reflexivity.
+  - destruct (String.eqb prod P_OpenSSH).
+    + destruct (p_digit opatch) as [d1|], (p_digit spatch) as [d2|]; cbn [negb andb]; cbv iota beta; rewrite src_three_way; reflexivity.
+    + rewrite src_three_way. reflexivity.
+Qed.
